@@ -21,7 +21,7 @@ RULE = ('seeded random (F, Q, dt): n 1..24 (mpmath subset n<=12 in quick), F sta
         ' Round 5: class exchange - generators with zero row sums (marginally stable, singular, weakly diagonally dominant) at steps of 1..6 time constants.')
 ASSUMPTIONS = ['mpmath Taylor expm at 50 digits is exact relative to float64',
                'rounding bound kappa = exp(|F|_2 dt) * (1+|F|dt)  (conditioning of the block exponential)']
-REQUIRED_OBS = ['scale_invariance_checked', 'returned_arrays_overwritten', 'float_route_compared', 'in_place_updates_between_calls', 'integer_typed_inputs', 'post_checked', 'mp_compared', 'composition_checked', 'zero_step_checked', 'ambient_calls_checked']
+REQUIRED_OBS = ['column_major_inputs', 'systems_in_mixed_units', 'scale_invariance_checked', 'returned_arrays_overwritten', 'float_route_compared', 'in_place_updates_between_calls', 'integer_typed_inputs', 'post_checked', 'mp_compared', 'composition_checked', 'zero_step_checked', 'ambient_calls_checked']
 REQUIRED_CLASSES = {'all': ['stable', 'unstable', 'nilpotent', 'triangular', 'diagonal', 'zero', 'random', 'singularQ', 'dt0', 'integer', 'exchange', 'ambient']}
 EPS = np.finfo(float).eps
 C_PHI = 5e4   # scipy 1.18 expm is only ~1e-12 relative on small blocks (measured: 620 eps)
@@ -186,6 +186,20 @@ def gen(case):
     k = int(rng.integers(1, 9))
     w = rng.uniform(0.05, 1, k)
     parts = (w / w.sum() * dt).tolist()
+    # Round 6: states in mixed units (row / column norms of F decades apart: an exact power-of-two similarity D^-1 F D, D Q D) and / or a
+    # column-major array (A.T, a slice of a stack, the output of a LAPACK routine) - the layout in which scipy / LAPACK really work in place
+    lrng = np.random.Generator(np.random.PCG64(case['seed'] + 99))
+    if n > 1 and lrng.random() < 0.3:
+        d_ = 2.0 ** lrng.integers(-6, 7, n)
+        F = F * d_[None, :] / d_[:, None]
+        Q = Q / d_[:, None] / d_[None, :]
+        nf = np.linalg.norm(F, 2) * dt
+        if nf > 20:
+            dt = dt * 20 / nf
+            parts = [p_ * 20 / nf for p_ in parts]
+    if lrng.random() < 0.35:
+        F = np.asfortranarray(F)
+        Q = np.asfortranarray(Q)
     return F, Q, dt, parts
 
 
@@ -297,6 +311,11 @@ def run_case(case):
     LAST.clear()
     LAST['use_mp'] = bool(case.get('mp'))
     obs = LAST.setdefault('obs', {})
+    if isinstance(F, np.ndarray) and F.ndim == 2 and len(F) > 1:
+        obs['column_major_inputs'] = int(F.flags.f_contiguous and not F.flags.c_contiguous)
+        rn_ = np.abs(F).sum(axis=1) + 1e-300
+        cn_ = np.abs(F).sum(axis=0) + 1e-300
+        obs['systems_in_mixed_units'] = int(np.nanmax(np.maximum(rn_ / cn_, cn_ / rn_)) > 64)
     try:
         Phi, Qd = kalman.compute_process_matrices(F, Q, dt)
     except Exception as e:
